@@ -21,7 +21,9 @@ def _task(item):
     kind, key, case_name = item
     con = _REG.get(key)
     out = {"contract": key, "case": case_name, "records": [], "paths": 0, "unsupported": None, "error": None,
-           "gen_s": 0.0}
+           "gen_s": 0.0, "assumed_used": {}}
+    from . import apply as _apply0
+    _apply0.ASSUMED_USED.clear()
     t0 = time.time()
     try:
         if kind == "cover":
@@ -36,6 +38,8 @@ def _task(item):
             " @ " + traceback.format_exc().splitlines()[-3].strip()
         return out
     out["gen_s"] = time.time() - t0
+    from . import apply as _apply
+    out["assumed_used"] = dict(_apply.ASSUMED_USED)
     for o in obls:
         res, backend, t, info, agree = _solve_local(o, _SECOND)
         rec = {"name": o.name, "kind": o.kind, "result": res, "backend": backend, "seconds": round(t, 3),
@@ -74,5 +78,5 @@ def function_info(con):
     mi = source.module(con.module)
     fn = mi.find(con.qual)
     a, b, sha = mi.segment(fn)
-    return {"function": con.name, "file": "src/" + con.module, "lines": [a, b], "sha256": sha,
+    return {"function": con.name, "contract_key": con.key, "file": "src/" + con.module, "lines": [a, b], "sha256": sha,
             "cases": [c.name for c in con.cases]}
